@@ -112,6 +112,42 @@ def r_deadcheck(prog, tier):
                                           'under `%s is None` is dead: what it was meant to reject is accepted silently'
                                           % (nm, unparse(v)[:50], unparse(dflt), nm),
                                           construct='deadcheck:%s:%s' % (nm, unparse(v)[:50]), line=cfg.nodes[raises[0]].lineno))
+                    # ... or any other test for None: it always has the same outcome, what was meant for the absent key never runs
+                    for a in cfg.nodes:
+                        if a.kind != 'assume' or norm_test(a.ast, a.pol) != ('none', nm, False):
+                            continue
+                        if a.id not in cfg.reach(nid, avoid=frozenset(m for (m, _) in defs if m != nid)):
+                            continue
+                        if any(o_.construct == 'deadcheck:%s:%s' % (nm, unparse(v)[:50]) for o_ in obs):
+                            continue
+                        n += 1
+                        obs.append(Ob('R-DEADCHECK', f.fq, 'the test `%s is not None` can fail' % nm, False,
+                                      '`%s = %s` never yields None for an absent key (the default is `%s`), so `%s` is always true: '
+                                      'what the code does when the key is absent is what it does when it is given' % (
+                                          nm, unparse(v)[:50], unparse(dflt), unparse(a.ast)[:40]),
+                                      construct='deadtest:%s:%s' % (nm, unparse(v)[:50]), line=a.lineno))
+                        break
+            # the same after the lookup was spelled out (x = D; if k in kw: x = kw[k]): every definition is a non-None constant
+            # or an option value, so a test for None on x is constant
+            if f.kwarg:
+                for nm in f.locals:
+                    defs = name_defs(f, nm)
+                    if len(defs) < 2 or nm in f.params:
+                        continue
+                    consts_ = [v for (_, v) in defs if isinstance(v, ast.Constant) and v.value is not None and isinstance(v.value, str)]
+                    opts_ = [v for (_, v) in defs if isinstance(v, ast.Subscript) and isinstance(v.value, ast.Name)
+                             and v.value.id == f.kwarg and isinstance(v.slice, ast.Constant)]
+                    if not consts_ or not opts_ or len(consts_) + len(opts_) != len(defs):
+                        continue
+                    for a in cfg.nodes:
+                        if a.kind == 'assume' and norm_test(a.ast, a.pol) == ('none', nm, False):
+                            n += 1
+                            obs.append(Ob('R-DEADCHECK', f.fq, 'the test `%s is not None` can fail' % nm, False,
+                                          '`%s` is `%s` unless the option %s is given, never None: `%s` is always true, so what the code '
+                                          'does when the option is absent is what it does when it is given' % (
+                                              nm, unparse(consts_[0]), unparse(opts_[0].slice), unparse(a.ast)[:40]),
+                                          construct='deadtest-opt:%s' % nm, line=a.lineno))
+                            break
             # the same with the lookup written directly in the test:  if d.get(k, D) is None: raise
             for a in cfg.nodes:
                 if a.kind != 'assume':
@@ -394,6 +430,131 @@ def r_counterunion(prog, tier):
     return obs, {}
 
 
+def r_instr(prog, tier):
+    """`x in ('negra')` - a parenthesised string, not a tuple: the test is a substring test."""
+    obs = []
+    n = 0
+    for mod in MODULES:
+        for f in sorted(prog.modules[mod].funcs.values(), key=lambda x: x.fq):
+            for c in walk_own(f.node):
+                if isinstance(c, ast.Compare) and len(c.ops) == 1 and isinstance(c.ops[0], (ast.In, ast.NotIn)) \
+                        and isinstance(c.comparators[0], ast.Constant) and isinstance(c.comparators[0].value, str) \
+                        and len(c.comparators[0].value) >= 2 and any(ch.isalpha() for ch in c.comparators[0].value) \
+                        and not isinstance(c.left, ast.Constant):
+                    n += 1
+                    lit = c.comparators[0].value
+                    obs.append(Ob('R-INSTR', f.fq, 'membership in a collection of names, not in one name: `%s`' % unparse(c)[:60], False,
+                                  'the right-hand side is the string %r (parentheses do not make a tuple): the test holds for every '
+                                  'substring of it - %r, %r and the empty string are accepted like %r' % (lit, lit[:-1], lit[1:3], lit),
+                                  construct='instr:' + unparse(c)[:60], line=c.lineno))
+    obs.append(Ob('R-INSTR', 'package', 'scan for membership tests against a single string covered every function', True,
+                  '%d found' % n, construct='instr-scan', nontrivial=False))
+    return obs, {}
+
+
+def r_ordefault(prog, tier):
+    """`kw.get(k) or DEFAULT`: an option given with an empty or zero value is replaced by the default."""
+    obs = []
+    n = 0
+    for mod in MODULES:
+        for f in sorted(prog.modules[mod].funcs.values(), key=lambda x: x.fq):
+            if not f.kwarg:
+                continue
+            for c in walk_own(f.node):
+                if not (isinstance(c, ast.BoolOp) and isinstance(c.op, ast.Or) and len(c.values) == 2):
+                    continue
+                l, r = c.values
+                from_kw = (isinstance(l, ast.Call) and isinstance(l.func, ast.Attribute) and l.func.attr == 'get'
+                           and isinstance(l.func.value, ast.Name) and l.func.value.id == f.kwarg and len(l.args) == 1) or \
+                          (isinstance(l, ast.Subscript) and isinstance(l.value, ast.Name) and l.value.id == f.kwarg)
+                if from_kw and not (isinstance(r, ast.Constant) and r.value is None):
+                    n += 1
+                    obs.append(Ob('R-ORDEFAULT', f.fq, 'an option that is given is used as given: `%s`' % unparse(c)[:60], False,
+                                  '`or` replaces every falsy value, not only a missing one: an option explicitly given as the empty '
+                                  'string (or 0) is silently replaced by `%s`' % unparse(r)[:30],
+                                  construct='ordefault:' + unparse(c)[:60], line=c.lineno))
+    obs.append(Ob('R-ORDEFAULT', 'package', 'scan for option values defaulted with `or` covered every function', True,
+                  '%d found' % n, construct='ordefault-scan', nontrivial=False))
+    return obs, {}
+
+
+def r_keycopy(prog, tier):
+    """In a block that copies fields from one node to another field by field, one line copies ANOTHER field."""
+    obs = []
+    n = 0
+    for mod in MODULES:
+        for f in sorted(prog.modules[mod].funcs.values(), key=lambda x: x.fq):
+            for blk in ast.walk(f.node):
+                for fld in ('body', 'orelse'):
+                    lst = getattr(blk, fld, None)
+                    if not (isinstance(lst, list) and lst and isinstance(lst[0], ast.stmt)):
+                        continue
+                    copies = []
+                    for st in lst:
+                        if isinstance(st, ast.Assign) and len(st.targets) == 1 and isinstance(st.targets[0], ast.Subscript) \
+                                and isinstance(st.targets[0].value, ast.Attribute) and st.targets[0].value.attr == 'data' \
+                                and isinstance(st.value, ast.Subscript) and isinstance(st.value.value, ast.Attribute) \
+                                and st.value.value.attr == 'data' and isinstance(st.targets[0].slice, ast.Constant) \
+                                and isinstance(st.value.slice, ast.Constant):
+                            copies.append((unparse(st.targets[0].value.value), unparse(st.value.value.value),
+                                           st.targets[0].slice.value, st.value.slice.value, st))
+                    for (a_, b_, k1, k2, st) in copies:
+                        if k1 == k2 or a_ == b_:
+                            continue
+                        same = [c_ for c_ in copies if c_[0] == a_ and c_[1] == b_ and c_[2] == c_[3]]
+                        dup = [c_ for c_ in same if c_[3] == k2]
+                        if len(same) >= 2 and dup and not any(c_[3] == k1 for c_ in copies if c_[0] == a_ and c_[1] == b_):
+                            n += 1
+                            obs.append(Ob('R-KEYCOPY', f.fq, 'fields are copied to the field of the same name: `%s`' % unparse(st)[:60], False,
+                                          'the neighbouring lines copy `%s` to `%s` field by field; this one fills %r from %r, which the '
+                                          'block copies a second time, and %r of the source is never read' % (b_[:30], a_[:30], k1, k2, k1),
+                                          construct='keycopy:' + unparse(st)[:60], line=st.lineno))
+    obs.append(Ob('R-KEYCOPY', 'package', 'scan for crossed field copies covered every function', True, '%d found' % n,
+                  construct='keycopy-scan', nontrivial=False))
+    return obs, {}
+
+
+def r_sharedmut(prog, tier):
+    """One mutable object, made before a loop, is stored into many slots inside it and later changed through a slot."""
+    obs = []
+    n = 0
+    for mod in MODULES:
+        for f in sorted(prog.modules[mod].funcs.values(), key=lambda x: x.fq):
+            cfg = f.cfg
+            for nm in sorted(f.locals):
+                dv = name_defs(f, nm)
+                if len(dv) != 1 or not isinstance(dv[0][1], ast.AST):
+                    continue
+                dn, v = dv[0]
+                mutable = isinstance(v, (ast.Dict, ast.List, ast.Set)) or (
+                    isinstance(v, ast.Call) and isinstance(v.func, ast.Name) and v.func.id in ('dict', 'list', 'set', 'defaultdict', 'Counter'))
+                if not mutable:
+                    continue
+                for m in cfg.eval_nodes():
+                    if m.kind != 'stmt' or not isinstance(m.ast, ast.Assign) or not m.loops or len(m.ast.targets) != 1:
+                        continue
+                    t = m.ast.targets[0]
+                    if not (isinstance(t, ast.Subscript) and isinstance(m.ast.value, ast.Name) and m.ast.value.id == nm):
+                        continue
+                    if m.loops[0] in cfg.nodes[dn].loops:
+                        continue            # made afresh in the same loop
+                    slot = unparse(t)
+                    # changed through the slot somewhere (an element store or an augmented assignment on the slot)
+                    muts = [x for x in cfg.eval_nodes() if x.kind == 'stmt' and isinstance(x.ast, (ast.Assign, ast.AugAssign))
+                            and any(isinstance(tt, ast.Subscript) and unparse(tt.value) == slot
+                                    for tt in (x.ast.targets if isinstance(x.ast, ast.Assign) else [x.ast.target]))]
+                    if muts:
+                        n += 1
+                        obs.append(Ob('R-SHAREDMUT', f.fq, 'every slot gets an object of its own: `%s`' % unparse(m.ast)[:60], False,
+                                      '`%s = %s` (line %d) is made once, before the loop; every `%s` stored inside it is that same object, '
+                                      'and `%s` (line %d) changes it for all of them: the last value wins everywhere' % (
+                                          nm, unparse(v)[:30], cfg.nodes[dn].lineno, slot[:40], unparse(muts[0].ast)[:40], muts[0].lineno),
+                                      construct='sharedmut:%s:%s' % (nm, slot[:40]), line=m.lineno))
+    obs.append(Ob('R-SHAREDMUT', 'package', 'scan for one mutable object stored into many slots covered every function', True,
+                  '%d found' % n, construct='sharedmut-scan', nontrivial=False))
+    return obs, {}
+
+
 def r_leakvar(prog, tier):
     """Inside an outer loop, the variable of a finished inner `for` loop is read after that loop and is bound nowhere
     else: it holds the leftover of the last inner iteration - or, when the inner loop did not run for this outer
@@ -510,6 +671,17 @@ def fx(tree, **params):
     seen |= Counter([lab])
     line = lab + " ||| %s"
     out = line % idx
+    if lab in ('negra'):
+        pass
+    sep = params.get('sep') or '-'
+    tree.data['num'] = tree.children[0].data['num']
+    tree.data['word'] = tree.children[0].data['lemma']
+    tree.data['lemma'] = tree.children[0].data['lemma']
+    zero = {'x': 0}
+    table = {}
+    for c in tree.children:
+        table[c] = zero
+        table[c]['x'] = len(c.children)
     return tree
 TRANSFORMATIONS = [fx]
 """,
@@ -551,3 +723,7 @@ r_leakvar = _with_fixture('R-LEAKVAR', r_leakvar)
 r_strsort = _with_fixture('R-STRSORT', r_strsort)
 r_fmtdata = _with_fixture('R-FMTDATA', r_fmtdata)
 r_counterunion = _with_fixture('R-COUNTERUNION', r_counterunion)
+r_instr = _with_fixture('R-INSTR', r_instr)
+r_ordefault = _with_fixture('R-ORDEFAULT', r_ordefault)
+r_keycopy = _with_fixture('R-KEYCOPY', r_keycopy)
+r_sharedmut = _with_fixture('R-SHAREDMUT', r_sharedmut)
